@@ -1154,6 +1154,8 @@ class Interp:
             return "<str>"
         if name in ("abs", "min", "max", "sum", "round") and all(is_num(x) for x in a):
             return {"abs": abs, "min": min, "max": max, "sum": sum, "round": round}[name](*a)
+        if name == "round" and isinstance(a[0], Term):
+            return Op("py_round", tuple(a), kwargs)
         if name in ("sum", "min", "max") and len(a) >= 1:
             v = a[0] if len(a) == 1 or name == "sum" else list(a)
             if isinstance(v, (list, tuple)) and v:
